@@ -855,7 +855,7 @@ func TestKindMatrixAfterUse(t *testing.T) {
 		}
 		for fi, fresh := range []bool{false, true} {
 			for _, s := range refcrypto.SigSpecs {
-				if sigKeyExpect(s, k, true).any() {
+				if e := sigKeyExpect(s, k, true); e.any() {
 					continue
 				}
 				use = append(use,
